@@ -140,6 +140,67 @@ theorem C01_reader_error_final (st : RState α) (fs gs : List (DFrame α)) (e : 
   subst h
   rfl
 
+/-- **Every delivered message has exactly the length its envelope declared**
+    — for ANY frame list, malformed ones included: the reader never hands out
+    a short or over-long message (or the length pending from the message in
+    progress when reading started). -/
+theorem C01_reader_msg_matches_envelope (fs : List (DFrame α)) : ∀ (st : RState α) (m : List α),
+    m ∈ (parse st fs).1 →
+    (∃ size d, DFrame.env size d ∈ fs ∧ m.length = size) ∨ (∃ n b, st = some (n, b) ∧ m.length = n) := by
+  induction fs with
+  | nil => intro st m h; simp [parse] at h
+  | cons f fs ih =>
+    intro st m h
+    unfold parse at h
+    cases st with
+    | none =>
+      cases f with
+      | env size d =>
+        by_cases h1 : d.length > size
+        · simp [parseStep, h1] at h
+        · by_cases h2 : d.length = size
+          · simp only [parseStep, h2, if_true] at h
+            simp at h
+            rcases h with h | h
+            · left; exact ⟨size, d, by simp, by rw [h]; exact h2⟩
+            · rcases ih none m h with ⟨s, d', hm, hl⟩ | ⟨n, b, hst, _⟩
+              · left; exact ⟨s, d', by simp [hm], hl⟩
+              · cases hst
+          · simp only [parseStep, h1, h2, if_false] at h
+            rcases ih (some (size, d)) m h with ⟨s, d', hm, hl⟩ | ⟨n, b, hst, hl⟩
+            · left; exact ⟨s, d', by simp [hm], hl⟩
+            · left; cases hst; exact ⟨size, d, by simp, hl⟩
+      | more d => simp [parseStep] at h
+      | other => simp [parseStep] at h
+    | some p =>
+      obtain ⟨n, b⟩ := p
+      cases f with
+      | env size d => simp [parseStep] at h
+      | more d =>
+        by_cases h1 : (b ++ d).length > n
+        · simp only [parseStep, h1, if_true] at h; simp at h
+        · by_cases h2 : (b ++ d).length = n
+          · simp only [parseStep, h2, if_true] at h
+            simp at h
+            rcases h with h | h
+            · right; exact ⟨n, b, rfl, by rw [h]; exact h2⟩
+            · rcases ih none m h with ⟨s, d', hm, hl⟩ | ⟨n', b', hst, _⟩
+              · left; exact ⟨s, d', by simp [hm], hl⟩
+              · cases hst
+          · simp only [parseStep, h1, h2, if_false] at h
+            rcases ih (some (n, b ++ d)) m h with ⟨s, d', hm, hl⟩ | ⟨n', b', hst, hl⟩
+            · left; exact ⟨s, d', by simp [hm], hl⟩
+            · right; cases hst; exact ⟨n, b, rfl, hl⟩
+      | other => simp [parseStep] at h
+
+/-- from a fresh stream: each delivered message is announced by an envelope
+    frame of exactly its length -/
+theorem C01_reader_msg_has_envelope (fs : List (DFrame α)) (m : List α) (h : m ∈ (parse none fs).1) :
+    ∃ size d, DFrame.env size d ∈ fs ∧ m.length = size := by
+  rcases C01_reader_msg_matches_envelope fs none m h with h | ⟨n, b, hst, _⟩
+  · exact h
+  · cases hst
+
 -- non-vacuity: a 5-byte message under windows 2 then 3 (chunkMax 2)
 example : (pump 2 2 (Snd.start [1,2,3,4,5])).1 = [.env 5 [1,2]] := by decide
 example : (parse none [DFrame.env 5 [1,2], .more [3,4], .more [5]]).1 = [[1,2,3,4,5]] := by decide
